@@ -2,6 +2,8 @@
 From Coq Require Import String.
 From Cvg Require Import Base GoTypes Dump Options Front Builder Gen.
 From Cvg.proofs Require Import BuilderProofs HeaderProofs.
+From Cvg Require Import GoLib GoFuns.
+From Cvg.proofs Require Import GenTieProofs.
 Open Scope N_scope.
 
 (** The header FuncToString prints is the documented shape
@@ -61,3 +63,14 @@ Example C08_example :
                  fn_ret_err := true; fn_style := style_arg; fn_assignments := []; fn_pre := None; fn_post := None |}
   = s2b "func (r *S) Conv(dst *ext.D, arg0 int) (err error) {" ++ nl.
 Proof. vm_compute. reflexivity. Qed.
+
+(** Tie to the source. [GoGen.FuncToString] is /repo's pkg/generator.FuncToString (with
+    AssignmentToString, ManipulatorToString, the String()/RetError() methods of the
+    assignment kinds, loopVars and Var.FullType), translated statement by statement into
+    gen/GoFuns.v on every run; [lower_function] is the record the builder hands over.  The
+    function text the theorems of this file speak about is therefore what the Go code
+    computes, for every function record. *)
+Theorem C08_text_is_what_the_go_code_prints :
+  forall f, GoGen.FuncToString (lower_function f) = func_to_string f.
+Proof. exact func_to_string_tie. Qed.
+Print Assumptions C08_text_is_what_the_go_code_prints.
